@@ -496,6 +496,41 @@ func decFilter(f *pb.Filter) string {
 		if proto.Unmarshal(s, m) == nil {
 			return "Family(" + decCompare(m.GetCompareFilter()) + ")"
 		}
+	case "DependentColumnFilter":
+		m := &pb.DependentColumnFilter{}
+		if proto.Unmarshal(s, m) == nil {
+			return "DependentColumn(" + decCompare(m.GetCompareFilter()) + "," + hx(m.GetColumnFamily()) + "," + hx(m.GetColumnQualifier()) + "," + c05b01(m.GetDropDependentColumn()) + ")"
+		}
+	case "FirstKeyValueMatchingQualifiersFilter":
+		m := &pb.FirstKeyValueMatchingQualifiersFilter{}
+		if proto.Unmarshal(s, m) == nil {
+			parts := []string{}
+			for _, x := range m.GetQualifiers() {
+				parts = append(parts, hx(x))
+			}
+			return "FirstKeyValueMatchingQualifiers(" + strings.Join(parts, ",") + ")"
+		}
+	case "FuzzyRowFilter":
+		m := &pb.FuzzyRowFilter{}
+		if proto.Unmarshal(s, m) == nil {
+			parts := []string{}
+			for _, x := range m.GetFuzzyKeysData() {
+				parts = append(parts, hx(x.GetFirst())+":"+hx(x.GetSecond()))
+			}
+			return "FuzzyRow(" + strings.Join(parts, ",") + ")"
+		}
+	case "RandomRowFilter":
+		m := &pb.RandomRowFilter{}
+		if proto.Unmarshal(s, m) == nil {
+			return "RandomRow(" + strconv.FormatUint(uint64(math.Float32bits(m.GetChance())), 16) + ")"
+		}
+	case "SingleColumnValueExcludeFilter":
+		m := &pb.SingleColumnValueExcludeFilter{}
+		if proto.Unmarshal(s, m) == nil {
+			v := m.GetSingleColumnValueFilter()
+			return "SingleColumnValueExclude(" + hx(v.GetColumnFamily()) + "," + hx(v.GetColumnQualifier()) + "," + strconv.Itoa(int(v.GetCompareOp())) + "," +
+				decComparator(v.GetComparator()) + "," + c05b01(v.GetFilterIfMissing()) + c05b01(v.GetLatestVersionOnly()) + ")"
+		}
 	case "FilterList":
 		m := &pb.FilterList{}
 		if proto.Unmarshal(s, m) == nil {
@@ -526,6 +561,33 @@ func decComparator(c *pb.Comparator) string {
 		m := &pb.BinaryPrefixComparator{}
 		if proto.Unmarshal(c.GetSerializedComparator(), m) == nil {
 			return "BinaryPrefix:" + hx(m.GetComparable().GetValue())
+		}
+	}
+	switch name {
+	case "LongComparator":
+		m := &pb.LongComparator{}
+		if proto.Unmarshal(c.GetSerializedComparator(), m) == nil {
+			return "Long:" + hx(m.GetComparable().GetValue())
+		}
+	case "BitComparator":
+		m := &pb.BitComparator{}
+		if proto.Unmarshal(c.GetSerializedComparator(), m) == nil {
+			return "Bit" + strconv.Itoa(int(m.GetBitwiseOp())) + ":" + hx(m.GetComparable().GetValue())
+		}
+	case "NullComparator":
+		m := &pb.NullComparator{}
+		if proto.Unmarshal(c.GetSerializedComparator(), m) == nil {
+			return "Null"
+		}
+	case "RegexStringComparator":
+		m := &pb.RegexStringComparator{}
+		if proto.Unmarshal(c.GetSerializedComparator(), m) == nil {
+			return "Regex:" + hx([]byte(m.GetPattern())) + ":" + strconv.Itoa(int(m.GetPatternFlags())) + ":" + hx([]byte(m.GetCharset())) + ":" + hx([]byte(m.GetEngine()))
+		}
+	case "SubstringComparator":
+		m := &pb.SubstringComparator{}
+		if proto.Unmarshal(c.GetSerializedComparator(), m) == nil {
+			return "Substring:" + hx([]byte(m.GetSubstr()))
 		}
 	}
 	return "unknown/" + hx([]byte(c.GetName())) + "/" + hx(c.GetSerializedComparator())
@@ -851,22 +913,37 @@ type fltSpec struct {
 	// nested up to two levels), 7 multi row range, 8 column range, 9 timestamps, 10 inclusive stop,
 	// 11 column count, 12 column pagination, 13 multiple column prefix, 14 skip, 15 while match,
 	// 16 single column value, 17 row, 18 value, 19 qualifier, 20 family
-	kind   int
-	arg    []byte
-	arg2   []byte
-	b      bool
-	b2     bool
-	n      int64
-	n2     int64
-	op     int
-	sub    []fltSpec
-	ranges []fltRange
-	list   [][]byte
-	ts     []int64
-	prefix bool // comparator: BinaryPrefixComparator rather than BinaryComparator
+	kind    int
+	arg     []byte
+	arg2    []byte
+	b       bool
+	b2      bool
+	n       int64
+	n2      int64
+	op      int
+	sub     []fltSpec
+	ranges  []fltRange
+	list    [][]byte
+	ts      []int64
+	prefix  bool // comparator: BinaryPrefixComparator rather than BinaryComparator
+	cmpStrs [2][]byte
+	chance  float32
+	cmp     int // comparator kind when > 0: 1 long, 2 bit (n2 = operator), 3 null, 4 regex (arg pattern, n2 flags, cmpStrs charset and engine), 5 substring
 }
 
 func (f fltSpec) comparator() filter.Comparator {
+	switch f.cmp {
+	case 1:
+		return filter.NewLongComparator(filter.NewByteArrayComparable(f.arg))
+	case 2:
+		return filter.NewBitComparator(filter.BitComparatorBitwiseOp(f.n2), filter.NewByteArrayComparable(f.arg))
+	case 3:
+		return filter.NewNullComparator()
+	case 4:
+		return filter.NewRegexStringComparator(string(f.arg), int32(f.n2), string(f.cmpStrs[0]), string(f.cmpStrs[1]))
+	case 5:
+		return filter.NewSubstringComparator(string(f.arg))
+	}
 	if f.prefix {
 		return filter.NewBinaryPrefixComparator(filter.NewByteArrayComparable(f.arg))
 	}
@@ -874,6 +951,18 @@ func (f fltSpec) comparator() filter.Comparator {
 }
 
 func (f fltSpec) renderComparator() string {
+	switch f.cmp {
+	case 1:
+		return "Long:" + hx(f.arg)
+	case 2:
+		return "Bit" + strconv.FormatInt(f.n2, 10) + ":" + hx(f.arg)
+	case 3:
+		return "Null"
+	case 4:
+		return "Regex:" + hx(f.arg) + ":" + strconv.FormatInt(f.n2, 10) + ":" + hx(f.cmpStrs[0]) + ":" + hx(f.cmpStrs[1])
+	case 5:
+		return "Substring:" + hx(f.arg)
+	}
 	if f.prefix {
 		return "BinaryPrefix:" + hx(f.arg)
 	}
@@ -937,6 +1026,20 @@ func (f fltSpec) build() filter.Filter {
 		return filter.NewQualifierFilter(filter.NewCompareFilter(filter.CompareType(f.op), f.comparator()))
 	case 20:
 		return filter.NewFamilyFilter(filter.NewCompareFilter(filter.CompareType(f.op), f.comparator()))
+	case 21:
+		return filter.NewDependentColumnFilter(filter.NewCompareFilter(filter.CompareType(f.op), f.comparator()), f.arg2, f.list[0], f.b)
+	case 22:
+		return filter.NewFirstKeyValueMatchingQualifiersFilter(f.list)
+	case 23:
+		var ps []*filter.BytesBytesPair
+		for i := 0; i+1 < len(f.list); i += 2 {
+			ps = append(ps, filter.NewBytesBytesPair(f.list[i], f.list[i+1]))
+		}
+		return filter.NewFuzzyRowFilter(ps)
+	case 24:
+		return filter.NewRandomRowFilter(f.chance)
+	case 25:
+		return filter.NewSingleColumnValueExcludeFilter(filter.NewSingleColumnValueFilter(f.arg2, f.list[0], filter.CompareType(f.op), f.comparator(), f.b, f.b2))
 	}
 	return nil
 }
@@ -999,6 +1102,24 @@ func (f fltSpec) render() string {
 		return "Qualifier(" + strconv.Itoa(f.op) + "," + f.renderComparator() + ")"
 	case 20:
 		return "Family(" + strconv.Itoa(f.op) + "," + f.renderComparator() + ")"
+	case 21:
+		return "DependentColumn(" + strconv.Itoa(f.op) + "," + f.renderComparator() + "," + hx(f.arg2) + "," + hx(f.list[0]) + "," + c05b01(f.b) + ")"
+	case 22:
+		parts := []string{}
+		for _, x := range f.list {
+			parts = append(parts, hx(x))
+		}
+		return "FirstKeyValueMatchingQualifiers(" + strings.Join(parts, ",") + ")"
+	case 23:
+		parts := []string{}
+		for i := 0; i+1 < len(f.list); i += 2 {
+			parts = append(parts, hx(f.list[i])+":"+hx(f.list[i+1]))
+		}
+		return "FuzzyRow(" + strings.Join(parts, ",") + ")"
+	case 24:
+		return "RandomRow(" + strconv.FormatUint(uint64(math.Float32bits(f.chance)), 16) + ")"
+	case 25:
+		return "SingleColumnValueExclude(" + hx(f.arg2) + "," + hx(f.list[0]) + "," + strconv.Itoa(f.op) + "," + f.renderComparator() + "," + c05b01(f.b) + c05b01(f.b2) + ")"
 	}
 	return "none"
 }
@@ -1458,7 +1579,7 @@ func genFltSome(r *RNG, depth int) fltSpec {
 func genFlt(r *RNG, depth int) fltSpec {
 	k := r.Intn(12)
 	if k >= 7 { // the less common filters share the upper part of the range
-		k = 7 + r.Intn(14)
+		k = 7 + r.Intn(19)
 	}
 	if depth >= 2 && (k == 6 || k == 14 || k == 15) {
 		k = 1
@@ -1524,12 +1645,53 @@ func genFlt(r *RNG, depth int) fltSpec {
 	case 14, 15:
 		return fltSpec{kind: k, sub: []fltSpec{genFltSome(r, depth+1)}}
 	case 16:
-		return fltSpec{kind: 16, arg: r.Bytes(4, c05Alpha), arg2: r.Bytes(2, c05Alpha), list: [][]byte{r.Bytes(3, c05Alpha)},
-			op: r.Intn(7), prefix: r.Bool(), b: r.Bool(), b2: r.Bool()}
+		return genCmp(r, fltSpec{kind: 16, arg: r.Bytes(4, c05Alpha), arg2: r.Bytes(2, c05Alpha), list: [][]byte{r.Bytes(3, c05Alpha)},
+			op: r.Intn(7), prefix: r.Bool(), b: r.Bool(), b2: r.Bool()})
 	case 17, 18, 19, 20:
-		return fltSpec{kind: k, arg: r.Bytes(4, c05Alpha), op: r.Intn(7), prefix: r.Bool()}
+		return genCmp(r, fltSpec{kind: k, arg: r.Bytes(4, c05Alpha), op: r.Intn(7), prefix: r.Bool()})
+	case 21:
+		return genCmp(r, fltSpec{kind: 21, arg: r.Bytes(4, c05Alpha), arg2: r.Bytes(2, c05Alpha), list: [][]byte{r.Bytes(3, c05Alpha)}, op: r.Intn(7), b: r.Bool()})
+	case 22:
+		f := fltSpec{kind: 22}
+		for i, n := 0, 1+r.Intn(3); i < n; i++ {
+			f.list = append(f.list, r.Bytes(3, c05Alpha))
+		}
+		return f
+	case 23:
+		f := fltSpec{kind: 23}
+		for i, n := 0, 1+r.Intn(3); i < n; i++ {
+			key := r.Bytes(4, c05Alpha)
+			mask := make([]byte, len(key))
+			for j := range mask {
+				mask[j] = byte(r.Intn(2))
+			}
+			f.list = append(f.list, key, mask)
+		}
+		return f
+	case 24:
+		return fltSpec{kind: 24, chance: float32(r.Intn(1000)) / 1000}
+	case 25:
+		return genCmp(r, fltSpec{kind: 25, arg: r.Bytes(4, c05Alpha), arg2: r.Bytes(2, c05Alpha), list: [][]byte{r.Bytes(3, c05Alpha)},
+			op: r.Intn(7), b: r.Bool(), b2: r.Bool()})
 	}
 	return fltSpec{}
+}
+
+// genCmp picks the comparator of a comparing filter: the two byte-array ones half of the time,
+// otherwise one of long, bit (and / or / xor), null, regex string, substring.
+func genCmp(r *RNG, f fltSpec) fltSpec {
+	if r.Bool() {
+		return f
+	}
+	f.cmp = 1 + r.Intn(5)
+	switch f.cmp {
+	case 2:
+		f.n2 = int64(1 + r.Intn(3))
+	case 4:
+		f.n2 = int64(r.Intn(64))
+		f.cmpStrs = [2][]byte{[]byte([]string{"UTF-8", "ISO-8859-1"}[r.Intn(2)]), []byte([]string{"JAVA", "JONI"}[r.Intn(2)])}
+	}
+	return f
 }
 
 func genQuery(r *RNG, s *opSpec) {
@@ -2724,7 +2886,33 @@ func adminCase(r *RNG) string {
 		b, err := proto.Marshal(m)
 		return err == nil && proto.Unmarshal(b, into) == nil
 	}
-	kind := []string{"create", "create", "create", "delete", "enable", "disable", "snapshot", "snapshot", "listtables", "balancer"}[r.Intn(10)]
+	kind := []string{"create", "create", "create", "delete", "enable", "disable", "snapshot", "snapshot", "listtables", "balancer", "move"}[r.Intn(11)]
+	switch kind {
+	case "move":
+		// MoveRegion: the encoded region name, and (when given) the destination host,port,startcode
+		region := []byte(fmt.Sprintf("%032x", r.Next()))
+		host, port, start := fmt.Sprintf("h%d.example", r.Intn(1000)), uint32(1+r.Intn(65000)), r.Next()>>uint(r.Intn(40))
+		withDest := r.Intn(3) != 0
+		var opts []func(hrpc.Call) error
+		if withDest {
+			// a host name may itself contain no comma; the start code takes all 64 bits
+			opts = append(opts, hrpc.WithDestinationRegionServer(fmt.Sprintf("%s,%d,%d", host, port, start)))
+		}
+		mv, err := hrpc.NewMoveRegion(ctx, region, opts...)
+		d := &pb.MoveRegionRequest{}
+		if err != nil || !reround(mv.ToProto(), d) {
+			return "c05 admin move undecodable"
+		}
+		switch {
+		case !bytes.Equal(d.GetRegion().GetValue(), region) || d.GetRegion().GetType() != pb.RegionSpecifier_ENCODED_REGION_NAME:
+			return "c05 admin move region-differs"
+		case withDest != (d.DestServerName != nil):
+			return "c05 admin move destination-presence-differs"
+		case withDest && (d.GetDestServerName().GetHostName() != host || d.GetDestServerName().GetPort() != port || d.GetDestServerName().GetStartCode() != start):
+			return "c05 admin move destination-differs"
+		}
+		return "c05 admin move ok"
+	}
 	switch kind {
 	case "snapshot":
 		// a snapshot description: name, table, version (0 is a version: the V1 manifest format),
